@@ -139,6 +139,7 @@ type vIdP struct {
 	onUserinfo func(auth string) (int, string, string, error)
 	onJWKS     func() (int, string, string, error)
 	hook       func(path string) // scheduler hook (C12)
+	ctxHook    func(ctx context.Context, path string)
 }
 
 func (i *vIdP) record(c vIdPCall) {
@@ -187,6 +188,9 @@ func (i *vIdP) RoundTrip(req *http.Request) (*http.Response, error) {
 	}
 	if h := i.hook; h != nil {
 		h(req.URL.Path)
+	}
+	if h := i.ctxHook; h != nil {
+		h(req.Context(), req.URL.Path)
 	}
 	i.record(vIdPCall{Path: req.URL.Path, Form: form, Auth: req.Header.Get("Authorization")})
 	var (
@@ -313,7 +317,8 @@ type vRedis struct {
 	faultArg map[int]int
 	down     bool
 	nextLock int
-	hook     func(kind, key string) // scheduler hook (C12): called before the operation, outside mu
+	hook     func(kind, key string) // called before the operation, outside mu
+	ctxHook  func(ctx context.Context, kind, key string) // scheduler hook (C12)
 }
 
 func vNewRedis() *vRedis {
@@ -324,9 +329,12 @@ var errVRedis = errors.New("verif: injected redis failure")
 var errVRedisNil = errors.New("redis: nil")
 
 // begin logs the operation and returns its index and the fault planned for it.
-func (r *vRedis) begin(kind, key string) (int, vFault) {
+func (r *vRedis) begin(ctx context.Context, kind, key string) (int, vFault) {
 	if h := r.hook; h != nil {
 		h(kind, key)
+	}
+	if h := r.ctxHook; h != nil && ctx != nil {
+		h(ctx, kind, key)
 	}
 	r.mu.Lock()
 	defer r.mu.Unlock()
@@ -339,8 +347,8 @@ func (r *vRedis) begin(kind, key string) (int, vFault) {
 	return idx, f
 }
 
-func (r *vRedis) Get(_ context.Context, key string) ([]byte, error) {
-	idx, f := r.begin("get", key)
+func (r *vRedis) Get(ctx context.Context, key string) ([]byte, error) {
+	idx, f := r.begin(ctx, "get", key)
 	r.mu.Lock()
 	defer r.mu.Unlock()
 	if f == vErrBefore || f == vErrAfter {
@@ -369,8 +377,8 @@ func (r *vRedis) Get(_ context.Context, key string) ([]byte, error) {
 	return v, nil
 }
 
-func (r *vRedis) Set(_ context.Context, key string, value []byte, exp time.Duration) error {
-	_, f := r.begin("set", key)
+func (r *vRedis) Set(ctx context.Context, key string, value []byte, exp time.Duration) error {
+	_, f := r.begin(ctx, "set", key)
 	r.mu.Lock()
 	defer r.mu.Unlock()
 	if f == vErrBefore {
@@ -383,8 +391,8 @@ func (r *vRedis) Set(_ context.Context, key string, value []byte, exp time.Durat
 	return nil
 }
 
-func (r *vRedis) Del(_ context.Context, key string) error {
-	_, f := r.begin("del", key)
+func (r *vRedis) Del(ctx context.Context, key string) error {
+	_, f := r.begin(ctx, "del", key)
 	r.mu.Lock()
 	defer r.mu.Unlock()
 	if f == vErrBefore {
@@ -397,8 +405,8 @@ func (r *vRedis) Del(_ context.Context, key string) error {
 	return nil
 }
 
-func (r *vRedis) Ping(_ context.Context) error {
-	_, f := r.begin("ping", "")
+func (r *vRedis) Ping(ctx context.Context) error {
+	_, f := r.begin(ctx, "ping", "")
 	if f != vNoFault {
 		return errVRedis
 	}
@@ -445,8 +453,8 @@ type vRedisLock struct {
 	held bool
 }
 
-func (l *vRedisLock) Obtain(_ context.Context, _ time.Duration) error {
-	_, f := l.r.begin("lock-obtain", l.key)
+func (l *vRedisLock) Obtain(ctx context.Context, _ time.Duration) error {
+	_, f := l.r.begin(ctx, "lock-obtain", l.key)
 	l.r.mu.Lock()
 	defer l.r.mu.Unlock()
 	if f == vErrBefore {
@@ -463,8 +471,8 @@ func (l *vRedisLock) Obtain(_ context.Context, _ time.Duration) error {
 	return nil
 }
 
-func (l *vRedisLock) Peek(_ context.Context) (bool, error) {
-	_, f := l.r.begin("lock-peek", l.key)
+func (l *vRedisLock) Peek(ctx context.Context) (bool, error) {
+	_, f := l.r.begin(ctx, "lock-peek", l.key)
 	l.r.mu.Lock()
 	defer l.r.mu.Unlock()
 	if f != vNoFault {
@@ -474,8 +482,8 @@ func (l *vRedisLock) Peek(_ context.Context) (bool, error) {
 	return ok, nil
 }
 
-func (l *vRedisLock) Refresh(_ context.Context, _ time.Duration) error {
-	_, f := l.r.begin("lock-refresh", l.key)
+func (l *vRedisLock) Refresh(ctx context.Context, _ time.Duration) error {
+	_, f := l.r.begin(ctx, "lock-refresh", l.key)
 	l.r.mu.Lock()
 	defer l.r.mu.Unlock()
 	if f != vNoFault {
@@ -487,8 +495,8 @@ func (l *vRedisLock) Refresh(_ context.Context, _ time.Duration) error {
 	return nil
 }
 
-func (l *vRedisLock) Release(_ context.Context) error {
-	_, f := l.r.begin("lock-release", l.key)
+func (l *vRedisLock) Release(ctx context.Context) error {
+	_, f := l.r.begin(ctx, "lock-release", l.key)
 	l.r.mu.Lock()
 	defer l.r.mu.Unlock()
 	if f == vErrBefore {
@@ -909,3 +917,15 @@ func vForgeStateRedirect(state, redirect string, enc bool) string {
 	}
 	return raw
 }
+
+
+// lockHeld reports whether the lock for key is currently held (scheduler: a thread about to
+// obtain a held lock is blocked).
+func (r *vRedis) lockHeld(lockKey string) bool {
+	r.mu.Lock()
+	defer r.mu.Unlock()
+	_, ok := r.locks[lockKey]
+	return ok
+}
+
+func newSafeRecorder() *httptest.ResponseRecorder { return httptest.NewRecorder() }
